@@ -93,6 +93,15 @@ CLAIMED = {
         "DESIGN.md §4 C07",
         "exploration",
     ),
+    "C09": (
+        "Hypothesis-generated DDL histories vs catalogue model; every metadata observer read from every scope after every step",
+        "DDL histories over 2 databases x 2 schemas x 2 names (create/replace/if-not-exists/transient/cluster-by, CTAS, CLONE, views, ALTER, "
+        "COMMENT, DROP, re-CREATE) are generated; after every step information_schema.*, DESCRIBE, SHOW in three scopes and the "
+        "description of SELECT * are compared with a catalogue model holding the attributes as most recently declared. Exploration.",
+        "Snowflake type names/lengths per the mapping the repo's tests pin; OBJECT/ARRAY not generated; stale-attribute findings are classified by provenance.",
+        "DESIGN.md §4 C09",
+        "exploration",
+    ),
 }
 
 NOT_YET = {}
